@@ -143,9 +143,11 @@ package main
 //@ func (*proxy).handleAgentPostResponse props(C01,C07)
 //@   local p recv 0 0
 //@   local pending define 0 0 _ . requests [ _ ]
+//@   local pw define 1 0 io . Pipe ( )
 //@   local r param 0 1
 //@   local requestID param 0 2
 //@   local resp define 0 0 http . ReadResponse ( bufio . NewReader ( _ . Body ) , _ . req )
+//@   local respBody define 0 0 _ . Body
 //@   local w param 0 0
 //@   requires p != nil && w != nil && r != nil && p.requests != nil && !held(p.Mutex)
 //@   ghost sends int = 0
